@@ -4,11 +4,11 @@ CONSTANTS
   Shapes = {"scatter", "gather"}
   MaxFaults = 2
   Batches = 2
-  Mutants = {"none"}
-  Dev = 1
+  Mutants = {"short_stream", "filter_ok", "retry_local", "http_empty", "ignore_decode", "skip_digest"}
 INIT Init
 NEXT Next
 INVARIANT TypeOK
-INVARIANT Contract
+INVARIANT ContractDev
 INVARIANT NothingBeforeAll
+INVARIANT Kill
 CHECK_DEADLOCK TRUE
